@@ -111,7 +111,7 @@ def hostile_datagrams(rng, pair, n):
 def nested_sweep():
     """the complete sweep: nested level x length field x amount of data behind it (deterministic)"""
     out = []
-    for which in range(4):
+    for which in range(6):
         for ln in (0, 1, 2, 3, 4, 7, 8, 15, 16, 40, 0xFFFF):
             for npad in (0, 8, 16, 40, 64):
                 pad = bytes((i * 37 + 11) % 256 for i in range(npad))
@@ -125,9 +125,15 @@ def nested_sweep():
                     ptype = 33
                     tr = bytes([0, 0]) + struct.pack('>H', ln) + bytes([1, 0, 0, 12]) + pad
                     body = bytes([0, 0]) + struct.pack('>H', 8 + len(tr)) + bytes([1, 1, 0, 1]) + tr
-                else:
+                elif which == 3:
                     ptype = 42
                     body = bytes([3, 4]) + struct.pack('>H', ln) + pad
+                else:
+                    # a transform attribute: TV format (AF bit set, which == 4) or TLV format with length field ln
+                    ptype = 33
+                    attr = struct.pack('>HH', (0x8000 if which == 4 else 0) | 5, ln) + pad
+                    tr = bytes([0, 0]) + struct.pack('>H', 8 + len(attr)) + bytes([1, 0, 0, 12]) + attr
+                    body = bytes([0, 0]) + struct.pack('>H', 8 + len(tr)) + bytes([1, 1, 0, 1]) + tr
                 data = bytes([0x33] * 8) + bytes(8) + bytes([ptype, 0x20, 34, 0x08]) + \
                     struct.pack('>LL', 0, 32 + len(body)) + bytes([0, 0]) + struct.pack('>H', 4 + len(body)) + body
                 out.append(('nested-length-sweep', data, '192.168.0.1'))
@@ -250,6 +256,48 @@ def hostile_session(ctx, seed, legit, per_step, sendto_fail=None, kfail=None, re
     return fails
 
 
+def failure_burst(ctx, seed):
+    """Back-to-back events that each end in an error (the reply cannot be sent, an ACQUIRE without configuration, an
+    unparsable kernel message): the loop must be back at its event wait within bounded time after EACH of them - time
+    spent asleep counts (the simulator's clock is virtual: time.sleep is recorded, not executed)."""
+    fails = []
+    old = signal.signal(signal.SIGALRM, _alarm)
+    with Pair(seed=seed) as p:
+        try:
+            p.do(['acquire', 'A', 80])
+            src, dst, data = p.history[0]
+            p.B.sendto_fail = set(range(10000))
+            # ONE invocation of main_loop serving all the events (what a loop keeps in its local variables from one
+            # iteration to the next is part of the behaviour)
+            events = []
+            for k in range(18):
+                events.append(('udp', dst, src, bytes([0xE0, k + 1] * 4) + data[8:]))        # the reply cannot be sent
+            signal.setitimer(signal.ITIMER_REAL, 20.0)
+            p.B.loop_many(events)
+            signal.setitimer(signal.ITIMER_REAL, 0)
+            ctx.case({'failure-burst': len(events), 'slept': p.sim.slept, 'longest': p.sim.max_sleep}, nontrivial=True)
+            ctx.count('burst:events', len(events))
+            if p.B.iterations_done != len(events):
+                fails.append(Failure('property', 'loop:wedged', f'failure burst: only {p.B.iterations_done} of {len(events)} '
+                                     'events were served', {'burst': True, 'seed': seed}))
+            elif p.sim.max_sleep > 5.0:
+                fails.append(Failure('property', 'loop:away-from-event-wait',
+                                     f'during a burst of {len(events)} consecutive failing events main_loop stayed away from its '
+                                     f'event wait for {p.sim.max_sleep:.1f} s in one go ({p.sim.slept:.1f} s in total, asleep): '
+                                     'no datagram, kernel event or timer is served meanwhile', {'burst': True, 'seed': seed}))
+        except LoopEscape as ex:
+            signal.setitimer(signal.ITIMER_REAL, 0)
+            fails.append(Failure('property', 'loop:wedged' if isinstance(ex.exc, Hang) else 'loop:escaped-exception',
+                                 f'failure burst: {type(ex.exc).__name__}: {ex.exc}', {'burst': True, 'seed': seed}))
+        except Hang:
+            fails.append(Failure('property', 'loop:wedged', 'failure burst: main_loop did not come back within 5 s',
+                                 {'burst': True, 'seed': seed}))
+        finally:
+            signal.setitimer(signal.ITIMER_REAL, 0)
+            signal.signal(signal.SIGALRM, old)
+    return fails
+
+
 def settle(p):
     """let outstanding exchanges finish (retransmissions recover anything the scripted delivery order missed)"""
     for _ in range(12):
@@ -324,6 +372,7 @@ def oracle(ctx, deep):
             kf = ([k], []) if side == 0 else ([], [k])
             fails += hostile_session(ctx, ctx.rng.getrandbits(32), legit, 0, kfail=kf)
             ctx.count('fault:netlink')
+    fails += failure_burst(ctx, ctx.rng.getrandbits(32))
     return fails
 
 
@@ -400,6 +449,8 @@ def dead_entry_regression(ctx):
 
 
 def replay(ctx, obj):
+    if obj.get('burst'):
+        return failure_burst(ctx, obj['seed'])
     if 'legit' in obj:
         return hostile_session(ctx, obj['seed'], obj['legit'], obj['per_step'], obj.get('sendto_fail'),
                                obj.get('kfail'))
